@@ -3,9 +3,9 @@ package main
 import (
 	"fmt"
 	"os"
-	"os/exec"
 	"regexp"
 	"strings"
+	"sync"
 
 	"github.com/koykov/dyntpl"
 )
@@ -39,11 +39,9 @@ func runPreproc(o *Options, res *Result, rng *RNG, n int) error {
 	for i := 0; i < n; i++ {
 		cs = append(cs, pc{keep: rng.Bool(), src: genPreprocSource(rng)})
 	}
-	var items []string
 	for i := range cs {
 		c := &cs[i]
 		c.out = dyntpl.VerifPreprocess(c.src, c.keep)
-		items = append(items, fmt.Sprintf("(%s, %s, %s)", gBool(c.keep), gBytes(c.src), gBytes(c.out)))
 		res.Evaluations++
 		res.ModelEvals++
 		switch {
@@ -54,36 +52,77 @@ func runPreproc(o *Options, res *Result, rng *RNG, n int) error {
 			res.Hist("preproc:unchanged")
 		}
 	}
-	var sb strings.Builder
-	sb.WriteString("From DT Require Import Model.Bytes Model.Preproc Model.VCase.\nFrom Coq Require Import List.\nImport ListNotations.\nLocal Open Scope hb_scope.\n")
-	fmt.Fprintf(&sb, "Definition cases : list (bool * bytes * bytes) := %s.\n", gList(items))
-	sb.WriteString("Fixpoint mism (i : nat) (l : list (bool * bytes * bytes)) : list nat :=\n  match l with\n  | [] => []\n  | (k, s, out) :: r => if bytes_eqb (preprocess k s) out then mism (S i) r else i :: mism (S i) r\n  end.\n")
-	sb.WriteString("Definition bad := Eval vm_compute in mism 0 cases.\nPrint bad.\n")
 	dir := o.WorkDir + "/preproc"
 	_ = os.MkdirAll(dir, 0o755)
-	file := dir + "/cases.v"
-	if err := os.WriteFile(file, []byte(sb.String()), 0o644); err != nil {
-		return err
+	// one coqc per shard of 1000 cases (a single list of all thorough-tier cases overflows
+	// coqc's stack), eight at a time
+	const shard = 1000
+	type shardRes struct {
+		bad []int
+		err error
 	}
-	out, err := exec.Command("timeout", "900", "coqc", "-Q", o.CoqDir, "DT", "-Q", dir, "PP", file).CombinedOutput()
-	if err != nil {
-		return fmt.Errorf("coqc on %s: %v\n%s", file, err, tail(string(out), 1200))
+	nsh := (len(cs) + shard - 1) / shard
+	out := make([]shardRes, nsh)
+	sem := make(chan struct{}, 8)
+	var wg sync.WaitGroup
+	for sh := 0; sh < nsh; sh++ {
+		sh := sh
+		wg.Add(1)
+		sem <- struct{}{}
+		go func() {
+			defer wg.Done()
+			defer func() { <-sem }()
+			lo, hi := sh*shard, (sh+1)*shard
+			if hi > len(cs) {
+				hi = len(cs)
+			}
+			var items []string
+			for i := lo; i < hi; i++ {
+				items = append(items, fmt.Sprintf("(%s, %s, %s)", gBool(cs[i].keep), gBytes(cs[i].src), gBytes(cs[i].out)))
+			}
+			var sb strings.Builder
+			sb.WriteString("From DT Require Import Model.Bytes Model.Preproc Model.VCase.\nFrom Coq Require Import List.\nImport ListNotations.\nLocal Open Scope hb_scope.\n")
+			fmt.Fprintf(&sb, "Definition cases : list (bool * bytes * bytes) := %s.\n", gList(items))
+			sb.WriteString("Fixpoint mism (i : nat) (l : list (bool * bytes * bytes)) : list nat :=\n  match l with\n  | [] => []\n  | (k, s, out) :: r => if bytes_eqb (preprocess k s) out then mism (S i) r else i :: mism (S i) r\n  end.\n")
+			sb.WriteString("Definition bad := Eval vm_compute in mism 0 cases.\nPrint bad.\n")
+			sdir := fmt.Sprintf("%s/s%d", dir, sh)
+			_ = os.MkdirAll(sdir, 0o755)
+			file := sdir + "/cases.v"
+			if err := os.WriteFile(file, []byte(sb.String()), 0o644); err != nil {
+				out[sh].err = err
+				return
+			}
+			co, err := coqcCmd("900", "-Q", o.CoqDir, "DT", "-Q", sdir, fmt.Sprintf("PP%d", sh), file).CombinedOutput()
+			if err != nil {
+				out[sh].err = fmt.Errorf("coqc on %s: %v\n%s", file, err, tail(string(co), 1200))
+				return
+			}
+			k := strings.Index(string(co), "bad =")
+			if k < 0 {
+				out[sh].err = fmt.Errorf("preprocess model: no result in coqc output")
+				return
+			}
+			for _, m := range regexp.MustCompile(`\d+`).FindAllString(string(co[k:]), -1) {
+				var i int
+				fmt.Sscan(m, &i)
+				if i >= 0 && lo+i < hi {
+					out[sh].bad = append(out[sh].bad, lo+i)
+				}
+			}
+		}()
 	}
-	k := strings.Index(string(out), "bad =")
-	if k < 0 {
-		return fmt.Errorf("preprocess model: no result in coqc output")
-	}
-	for _, m := range regexp.MustCompile(`\d+`).FindAllString(string(out[k:]), -1) {
-		var i int
-		fmt.Sscan(m, &i)
-		if i < 0 || i >= len(cs) {
-			continue
+	wg.Wait()
+	for sh := range out {
+		if out[sh].err != nil {
+			return out[sh].err
 		}
-		c := cs[i]
-		res.Mismatches++
-		res.AddViolation(&Violation{Kind: "no-failing-input-found", Class: "correspondence:preprocess", Lemma: "correspondence preprocess (Model/Preproc.v) vs cutComments/cutFmt (parser.go)",
-			What:   fmt.Sprintf("the model of the source clean-up and the parser differ on %q (keepFmt=%v): the parser goes on with %q", c.src, c.keep, c.out),
-			Replay: map[string]any{"source": string(c.src), "source_hex": hx(c.src), "keep_fmt": c.keep, "parser_output": string(c.out)}})
+		for _, i := range out[sh].bad {
+			c := cs[i]
+			res.Mismatches++
+			res.AddViolation(&Violation{Kind: "no-failing-input-found", Class: "correspondence:preprocess", Lemma: "correspondence preprocess (Model/Preproc.v) vs cutComments/cutFmt (parser.go)",
+				What:   fmt.Sprintf("the model of the source clean-up and the parser differ on %q (keepFmt=%v): the parser goes on with %q", c.src, c.keep, c.out),
+				Replay: map[string]any{"source": string(c.src), "source_hex": hx(c.src), "keep_fmt": c.keep, "parser_output": string(c.out)}})
+		}
 	}
 	_ = os.RemoveAll(dir)
 	return nil
